@@ -60,6 +60,7 @@ def build(reg, cfg):
     C12.build(sub)
     C02.build(sub)
     for c in sub.contracts:
+        if 'the cache the forces are computed from' in c.name: continue      # C02's re-import of the C12 contract: already taken from C12 itself
         if c.qname in ('contact_model_abstract::compute_node_triangle_distance', 'cell::compute_volume', 'cell::update_face_normal_and_area',
                        'cell::apply_pressure_on_surface', 'cell::apply_surface_tension_and_membrane_elasticity', 'cell::compute_area'):
             reg.add(relabel(c, 'as in ' + c.prop))
